@@ -1,0 +1,10 @@
+//go:build verif
+
+// Contracts for the govc verifier (/verif). Comment-only: with the "verif" tag off this file is
+// not part of any build; with it on it adds nothing but the package clause.
+package coordinator
+
+//@ func ReadLV
+//@   props C15
+//@   alloc_bound 1073741824
+//@   ensures bounded_frame: result1 == nil ==> len(result0) < 1073741824
